@@ -294,8 +294,11 @@ class Zeroconf(QuietLogger):
 
     def remove_all_service_listeners(self) -> None:
         """Removes a listener from the set that is currently listening."""
-        for listener in list(self.browsers):
-            self.remove_service_listener(listener)
+        # A callback that is still running while its browser is removed
+        # may add another listener: repeat until none is left
+        while self.browsers:
+            for listener in list(self.browsers):
+                self.remove_service_listener(listener)
 
     def register_service(
         self,
